@@ -243,8 +243,24 @@ func (d *driver) l0Files(family string) int {
 func (d *driver) compact(family string) {
 	op := d.begin("compact", family)
 	f := d.fams[family]
+	// every other compaction runs while the family's obsolete-file cleanup (what the end of any other background job
+	// of the family does) is called in a loop: finished outputs must survive until the compaction installs them
+	var stop atomic.Bool
+	var wg sync.WaitGroup
+	if op.ID%2 == 1 {
+		wg.Add(1)
+		go func() {
+			defer wg.Done()
+			for !stop.Load() {
+				kv.VerifFamilyDeleteObsoleteFiles(f)
+				runtime.Gosched()
+			}
+		}()
+	}
 	f.Compact()
 	kv.VerifFamilyWait(f)
+	stop.Store(true)
+	wg.Wait()
 	d.end(op, nil)
 }
 
